@@ -64,7 +64,8 @@ def post_validity(ls, op):
         if r.auto and vb and in_order and not r.db.index.valid:
             ls.fail("validity-inorder-insert", r, "auto_index on: an insert in non-decreasing time order (%s >= latest %s) invalidated a valid index" % (t.isoformat(), ls._latest_before.isoformat() if ls._latest_before else None))
         if not vb and r.db.index.valid:
-            ls.fail("validity-insert", r, "an insert turned an invalid index valid")
+            # not a rule of the statement by itself: a valid index only has to equal a rebuild, which eq_hook compares right after
+            ls.ctx.acc.cls("insert_turned_invalid_index_valid")
         ls.ctx.acc.cls("validity_rule_checked_" + ("inorder" if in_order else "out_of_order"))
 
 
